@@ -14,7 +14,7 @@
    totalised read.  None of them needs model = spec: they are about how the interval enters the
    computation (range of the plane index, dsp = int((disp - dmin) * subpix), the two loops of cv_masked). *)
 From Coq Require Import ZArith List Bool QArith Qround.
-From Pandora Require Import Lib.Ext Model.MatchingCost Spec.Cost Model.Interval
+From Pandora Require Import Lib.Ext Model.MatchingCost Spec.Cost Model.Interval Spec.Interval
                             Proofs.MatchingCostP Proofs.IntervalP Proofs.IntervalWtaP.
 From Pandora Require Model.Cbca Proofs.CbcaP Proofs.IntervalCbcaP.
 Import ListNotations.
@@ -172,10 +172,6 @@ Proof. exact wta_restriction. Qed.
 (* ---- whatever follows: the invariant and its composition (PARTIAL, see below) *)
 
 (* state after the disparity step: the map and which pixels are valid *)
-Record dstate := mkD { d_map : Z -> Z -> option Q; d_valid : Z -> Z -> bool }.
-Definition in_global_interval (ny nx dmin dmax : Z) (st : dstate) : Prop :=
-  forall r c, 0 <= r < ny -> 0 <= c < nx -> d_valid st r c = true ->
-  exists d, d_map st r c = Some d /\ (inject_Z dmin <= d)%Q /\ (d <= inject_Z dmax)%Q.
 
 (* FULL statement of the last clause of the property: for every single-scale legal pipeline the final
    disparity of every valid pixel lies in [dmin, dmax].  It needs, for each built-in step after the
@@ -195,26 +191,14 @@ Theorem C09_final_disp_in_global_interval_partial :
     Forall (fun f => forall st, in_global_interval ny nx dmin dmax st -> in_global_interval ny nx dmin dmax (f st)) steps ->
     in_global_interval ny nx dmin dmax st0 ->
     in_global_interval ny nx dmin dmax (fold_left (fun st f => f st) steps st0).
-Proof.
-  intros steps ny nx dmin dmax. induction steps as [|f steps IH]; intros st0 HF H0; cbn [fold_left]; [exact H0|].
-  inversion HF; subst. apply IH; [assumption|]. auto.
-Qed.
+Proof. exact steps_preserve_interval. Qed.
 
 (* base case: the state produced by WTA on the matching-cost volume, valid = has a computable cost *)
 Theorem C09_wta_state_in_global_interval : forall val m inp dmin dmax mx B invalid conf mask,
   1 <= B -> 0 < i_s inp -> dmin <= dmax ->
   in_global_interval (i_ny inp) (i_nx inp) dmin dmax
-    (mkD (wta_on_volume val m inp dmin dmax mx B invalid conf mask)
-         (fun r c => existsb (fun k => match mvolume m inp dmin dmax r c k with Some _ => true | None => false end)
-                             (zrange 0 (nb_disp (i_s inp) dmin dmax)))).
-Proof.
-  intros val m inp dmin dmax mx B invalid conf mask HB Hs Hd r c Hr Hc Hv. cbn [d_valid d_map] in *.
-  apply existsb_exists in Hv. destruct Hv as [k0 [Hk0 Hv]]. rewrite zrange_In in Hk0.
-  destruct (mvolume m inp dmin dmax r c k0) as [v0|] eqn:E; [|discriminate].
-  destruct (wta_within_interval val m inp dmin dmax mx B invalid conf mask HB Hs Hd r c k0 v0 Hr Hc
-              ltac:(Lia.lia) E) as (k & v & _ & Ho & _ & _ & _ & [G1 G2] & _).
-  exists (sample_q (i_s inp) dmin k). auto.
-Qed.
+    (mkD (wta_on_volume val m inp dmin dmax mx B invalid conf mask) (has_cost m inp dmin dmax)).
+Proof. exact wta_state_in_global_interval. Qed.
 
 (* ---- cross-based aggregation (C11's model) *)
 
@@ -276,22 +260,10 @@ Definition C09_cbca_grid_inside_full : Prop :=
     cv' k r c = Cbca.i_cv x k r c ->
     CbcaP.out_at (CbcaP.with_volume x (Cbca.i_disps x) cv') k r c = CbcaP.out_at x k r c.
 
-Definition leak_in : Cbca.cbca_in :=
-  Cbca.mkIn 3 3 0 1 2 (5 # 1) (fun _ _ => Some 10%Q) None 0 (fun _ _ _ => Some 10%Q) None 0 [0%Q]
-            (fun _ r c => Some (inject_Z (r + c))).
-Definition leak_cv : Z -> Z -> Z -> option Q :=
-  fun _ r c => if (r =? 1) && (c =? 0) then None else Some (inject_Z (r + c)).
-
+(* witness: 3 x 3 flat images (one 9-pixel support region), costs r + c, the cost of the neighbour (1, 0)
+   masked: the aggregate of (1, 1) goes from 18/9 to 17/9 *)
 Theorem C09_cbca_grid_inside_refuted : ~ C09_cbca_grid_inside_full.
-Proof.
-  intros H. specialize (H leak_in leak_cv 0 1 1).
-  assert (E : CbcaP.out_at (CbcaP.with_volume leak_in (Cbca.i_disps leak_in) leak_cv) 0 1 1
-              = CbcaP.out_at leak_in 0 1 1).
-  { apply H; try (vm_compute; intuition congruence).
-    intros r' c'. unfold leak_cv, leak_in. cbn [Cbca.i_cv].
-    destruct ((r' =? 1) && (c' =? 0)); [now right|now left]. }
-  vm_compute in E. discriminate.
-Qed.
+Proof. exact IntervalCbcaP.cbca_grid_inside_refuted. Qed.
 
 (* ---- non-vacuity: the 3 x 5 pair of C02_example (window 3, subpix 2, a nodata pixel in the right mask,
    per-pixel grids, axis [-1, 1]) against the scalar interval [-2, 2]: at (1, 2) the cost at d = +1/2 is
